@@ -35,7 +35,7 @@ WRAPS = (None, None, "Optional[{output_param}]", "Optional[Union[{output_param},
 
 def budgets(tier):
     if tier == "quick":
-        return {"core": 1200, "frontier": 160, "shards": 4}
+        return {"core": 1200, "frontier": 400, "shards": 4}
     return {"core": 16 * 800, "frontier": 16 * 150, "shards": 16}
 
 
@@ -112,7 +112,12 @@ def _case(draw, knob):
         tg = [o for o in olocs if o[1] in ARGK and o[0][-1] not in ("self", "cls") and _method_with_defaults(otree, o[0])]
         if tg:
             tg_kw = [o for o in tg if o[1] == "kwonlyarg"]
-            o = draw(st.sampled_from(tg_kw if tg_kw and draw(st.booleans()) else tg))
+            tg_al = [o for o in tg if o[1] == "arg" and _all_defaulted(otree, o[0])]
+            pool = tg_al if tg_al and draw(st.booleans()) else (tg_kw if tg_kw and draw(st.booleans()) else tg)
+            in_cls = [o for o in pool if _first_arg(otree, o[0]) == "cls"]
+            if in_cls and draw(st.booleans()):
+                pool = in_cls  # class methods: the implicit first argument is `cls`, not `self`
+            o = draw(st.sampled_from(pool))
             nm = o[0][-1]
             inp["body"] = [s_ for s_ in inp["body"] if s_.get("name") != nm]
             inp["body"].append({"k": "ann", "name": nm, "typ": draw(st.sampled_from(progs.TYPES)), "value": draw(st.sampled_from(("7", "'k'", "0.25")))})
@@ -166,6 +171,33 @@ def _case(draw, knob):
         pairs[which][side] = pairs[which][side][:-1] + ["nope"]
     return {"input": inp, "output": out, "pairs": pairs, "wrap": wrap, "eval": ev,
             "cli": draw(st.booleans())}
+
+
+def _default_of(tree, path):
+    """Default expression of the argument at `path` (None when it has none)."""
+    fn, _ = progs.model_resolve(tree, path[:-1])
+    if not isinstance(fn, ast.FunctionDef):
+        return None
+    pos = fn.args.args
+    for j, a in enumerate(pos):
+        if a.arg == path[-1]:
+            k = j - (len(pos) - len(fn.args.defaults))
+            return fn.args.defaults[k] if k >= 0 else None
+    for j, a in enumerate(fn.args.kwonlyargs):
+        if a.arg == path[-1]:
+            return fn.args.kw_defaults[j]
+    return None
+
+
+def _first_arg(tree, path):
+    fn, _ = progs.model_resolve(tree, path[:-1])
+    return fn.args.args[0].arg if isinstance(fn, ast.FunctionDef) and fn.args.args else None
+
+
+def _all_defaulted(tree, path):
+    fn, _ = progs.model_resolve(tree, path[:-1])
+    explicit = [a for a in fn.args.args if a.arg not in ("self", "cls")]
+    return isinstance(fn, ast.FunctionDef) and len(fn.args.defaults) == len(explicit) > 0
 
 
 def _method_with_defaults(tree, path):
@@ -250,7 +282,9 @@ def run_case(case):
             if ik == "ann" and inode.value is not None:
                 tags.add("valued_input")
                 if ok in ARGK and _method_with_defaults(otree, o) and i[-1] == o[-1]:
-                    tags.add("valued_same_name:%s" % ok)
+                    # finding KF-Y06 needs defaults that do not line up with the positional arguments; when every
+                    # explicit positional argument has a default they do line up, and the sync must be exact
+                    tags.add("valued_same_name:%s" % ("arg_aligned" if ok == "arg" and _all_defaulted(otree, o) else ok))
             if ok in ARGK and _method_with_defaults(otree, o):
                 tags.add("out_fn_has_defaults")
             if ok == "kwarg":
@@ -341,6 +375,15 @@ def run_case(case):
                     want = ast.unparse(ann)
                     if case["wrap"]:
                         want = case["wrap"].format(output_param=want)
+            if (not case["eval"] and ik == "ann" and inode.value is not None and gk == "arg" and i[-1] == o[-1]
+                    and _all_defaulted(ast.parse(out_src), o)):
+                # a positional parameter is replaced by the one of the input file, its value included (where the defaults
+                # line up with the arguments - otherwise finding KF-Y06; keyword-only defaults are never transferred and
+                # nothing the repository documents or tests says they should be)
+                gd = _default_of(atree, np_)
+                if gd is None or ast.dump(gd) != ast.dump(inode.value):
+                    discs.append(Disc("default-not-taken", ".".join(o), "expected default %s got %s" % (
+                        ast.unparse(inode.value), None if gd is None else ast.unparse(gd))))
             gann = _ann_of(got)
             if (want is None) != (gann is None) or (want is not None and ast.dump(ast.parse(want, mode="eval").body) != ast.dump(ast.parse(ast.unparse(gann), mode="eval").body)):
                 discs.append(Disc("annotation", ".".join(o), "expected %s got %s" % (want, ast.unparse(gann) if gann is not None else None)))
